@@ -484,3 +484,39 @@ def s02_8_every_binding_verified(ctx, P):
                       bad is None and bool(gs), function=p, site=site(b, h), witness=fmt_path(b, bad) if bad else None,
                       missing='an iteration can complete without a checked verification' if bad else None)
     ctx.floor(P + ':S02-8:floor', 'loops over stored signatures/components in verify_bindings-like functions', n, 8)
+
+
+def text_mode_selection(ctx, P):
+    """R-sib over every site that decides whether document data is CRLF-normalised before hashing: the decision is a test of
+    the signature type against SignatureType::Text, and LineBreak::Crlf is the target form (sign and verify side alike)."""
+    sites = []
+    for p, r in sorted(ctx.f.bodies.items()):
+        if '::tests::' in p or p.startswith(('normalize_lines::', 'util::')):
+            continue
+        b = ctx.wrap(r)
+        cs = b.calls(r'NormalizingHasher::new$|NormalizedReader::<.*>::new$')
+        if not cs:
+            ctx.functions.discard(p)
+            continue
+        for i, t in cs:
+            nm = t['f']['fn'].split('::')[-2]
+            if nm == 'NormalizingHasher':
+                og = b.operand_origins(t['args'][1])
+                if r.get('kind') == 'Closure' and r.get('parent') in ctx.f.bodies:
+                    # the flag is captured: take the origins of the captured operands at the closure's creation site
+                    pb = ctx.wrap(ctx.f.bodies[r['parent']])
+                    for blk in pb.blocks:
+                        for s2 in blk['s']:
+                            if s2['r']['k'] == 'agg' and s2['r'].get('ak') == 'closure' and s2['r'].get('adt') in (p, r['path']):
+                                for o2 in s2['r']['o']:
+                                    og = og | pb.operand_origins(o2)
+                good = has_origin(og, r'agg:.*SignatureType::Text$') and has_origin(og, r'field:SignatureConfig\.typ$|call:.*::typ$')
+            else:
+                # the reader variant is constructed under a branch on typ == Text and targets CRLF
+                gs = [g for g, tt in b.switches() if has_origin(b.switch_origins(g), r'agg:.*SignatureType::Text$|field:.*typ$|call:.*::typ$')]
+                ok, _ = must_pass(b, [i], gs)
+                good = ok and bool(gs) and has_origin(b.operand_origins(t['args'][1]), r'agg:line_writer::LineBreak::Crlf$')
+            sites.append((p, nm, good))
+            ctx.check('%s:text-mode:%s:%s' % (P, nm, p), 'R-sib', 'normalisation of signed document data in %s is selected by the signature type being Text' % p.split('::')[-1], good,
+                      function=p, site=site(b, i))
+    ctx.floor(P + ':text-mode:floor', 'sites selecting text canonicalisation for signatures', len(sites), 3)
